@@ -111,6 +111,58 @@ def fmt(v):
   return repr(v)
 
 
+def ruby_flags(sn):
+  """For one reference region snapshot: (ids of rb/rbc elements of rubies that do not keep all their children in the snapshot,
+  ids of those rubies, set of leaf node object ids that are optional).
+
+  The data model cannot hold a ruby without its annotation (or an rtc with an unpaired delimiter): when a child of a ruby is not
+  presented (inactive, display none, not associated, or without any text left) ttconv presents the base text in a span that takes
+  the place of the ruby.  For such a ruby the base text stays required, annotation and delimiter text become optional, and the
+  rb / rbc levels are ignored in ancestor chains.  Text of an unpaired delimiter (rp) inside an rtc is optional too."""
+  kid_leaves = {}
+  for l in sn.leaves:
+    for eid in l.chain:
+      kid_leaves.setdefault(eid, []).append(l)
+
+  def has_content(eid):
+    for l in kid_leaves.get(eid, ()):
+      if l.kind == "br" or nonspace(l.text) or (l.preserve and l.text != ""):
+        return True
+    return False
+
+  def survives(n):
+    if n["id"] not in sn.elements:
+      return False
+    if n["kind"] in ("rb", "rbc"):
+      return True
+    if n["kind"] in ("rt", "rp"):
+      return has_content(n["id"])
+    if n["kind"] == "rtc":
+      return any(survives(k) for k in n["kids"] if k["kind"] == "rt") or \
+             (len([k for k in n["kids"] if k["kind"] == "rp" and survives(k)]) == 2)
+    return True
+
+  strip, rubies, optional = set(), set(), set()
+  for eid, (n, _cc) in sn.elements.items():
+    if n["kind"] == "rtc":
+      rps = [k for k in n["kids"] if k["kind"] == "rp"]
+      if rps and not all(survives(k) for k in rps):
+        for k in rps:
+          optional.update(id(l.node) for l in kid_leaves.get(k["id"], ()))
+    if n["kind"] != "ruby":
+      continue
+    if all(survives(k) for k in n["kids"]):
+      continue
+    rubies.add(eid)
+    for k in n["kids"]:
+      if k["kind"] in ("rb", "rbc"):
+        strip.add(k["id"])
+        strip.update(x["id"] for x in k["kids"] if x["kind"] == "rb")
+      else:
+        optional.update(id(l.node) for l in kid_leaves.get(k["id"], ()))
+  return strip, rubies, optional
+
+
 def compare_presence(ref_snaps, isd_regions, res, default_region):
   """C01 clauses: nothing lost, nothing added, once and in order, ancestors intact, text content."""
   got = {r.id: r for r in isd_regions}
@@ -122,7 +174,21 @@ def compare_presence(ref_snaps, isd_regions, res, default_region):
     res.fail("presence:region-order", "isd %r reference %r" % (order, ref_ids))
   seen_text = {}
   for sn in ref_snaps:
-    rl = [(l.kind, nonspace(l.text), l.chain) for l in sn.leaves]
+    strip, rubies, optional = ruby_flags(sn)
+    g = got.get(sn.id)
+    if strip or optional:
+      res.labels["ruby-with-pruned-child"] += 1
+    if g is not None and (strip or optional):
+      g.leaves = [(k, x, tuple(i for i in c if i not in strip)) for (k, x, c) in g.leaves]
+      present = {(k, nonspace(x), c) for (k, x, c) in g.leaves}
+    else:
+      present = set()
+    rl = []
+    for l in sn.leaves:
+      c = tuple(i for i in l.chain if i not in strip)
+      if id(l.node) in optional and (l.kind, nonspace(l.text), c) not in present:
+        continue                  # optional leaf that ttconv does not present
+      rl.append((l.kind, nonspace(l.text), c))
     want_t = [(c, x) for (k, x, c) in rl if k == "text" and x]
     want_b = [c for (k, x, c) in rl if k == "br"]
     g = got.pop(sn.id, None)
@@ -169,14 +235,14 @@ def compare_presence(ref_snaps, isd_regions, res, default_region):
         res.fail("presence:text-in-two-regions", "%r in %s and %s" % (x, seen_text[x], sn.id))
       seen_text[x] = sn.id
     # containers: only active, associated, displayed source elements, in document order
-    extra = [i for i in g.order if i not in sn.elements]
+    extra = [i for i in g.order if i not in sn.elements and i not in strip]
     if extra:
       res.fail("presence:added:container", "region %s contains %r" % (sn.id, extra[:4]))
     ro = [i for i in sn.order if i in g.elements]
     if [i for i in g.order if i in sn.elements] != ro:
       res.fail("presence:order:container", "region %s" % sn.id)
     for eid, e in g.elements.items():
-      if eid in sn.elements and kind_of(e) != sn.elements[eid][0]["kind"]:
+      if eid in sn.elements and kind_of(e) != sn.elements[eid][0]["kind"] and not (eid in rubies and kind_of(e) == "span"):
         res.fail("presence:kind-changed", "%s is %s, source %s" % (eid, kind_of(e), sn.elements[eid][0]["kind"]))
   for rid, g in got.items():
     res.fail("presence:added:region", "region %s is not active/displayed in the reference (leaves %r)" % (rid, g.leaves[:3]))
@@ -186,7 +252,7 @@ def style_cells(sn, g):
   """yields (element id, kind, isd element, computed dict) for the region and every container present on both sides"""
   yield sn.id, "region", g.element, sn.computed
   for eid, e in g.elements.items():
-    if eid in sn.elements:
+    if eid in sn.elements and kind_of(e) == sn.elements[eid][0]["kind"]:     # a ruby presented as a span (pruned annotation) is skipped
       yield eid, sn.elements[eid][0]["kind"], e, sn.elements[eid][1]
 
 
